@@ -459,10 +459,11 @@ func (s *Store[H]) flushLoop(ctx context.Context) {
 	// flush queues the given headers into the pending batch and writes the batch out once it is
 	// grown enough or if forced.
 	flush := func(headers []H, force bool) {
-		s.ensureInit(headers)
-		verifYield("flush:initialized")
-		// add headers to the pending and ensure they are accessible
+		// add headers to the pending and ensure they are accessible, before the
+		// initialization publishes the height and wakes up the waiters for them
 		s.pending.Append(headers...)
+		verifYield("flush:initialized")
+		s.ensureInit(headers)
 		verifYield("flush:appended")
 		// always inform heightSub about new headers seen.
 		s.heightSub.Notify(getHeights(headers...)...)
